@@ -670,10 +670,10 @@ pub fn run(mut ctx: Ctx) -> ! {
              position), 0-2 trailing messages, optional sink failure, 1-5 sink slots, event channel drained (cap 0-2) or large, \
              generated deliver/take/drain schedule; non-trivial = fault at transcript position >= 1 or a sink failure after at \
              least one exchanged message",
-            20_000,
-            400_000,
+            200_000,
+            4_000_000,
         )
-        .min_nontrivial(0.15),
+        .min_nontrivial(0.3),
         scripted_strategy,
         check_scripted,
     );
@@ -682,8 +682,8 @@ pub fn run(mut ctx: Ctx) -> ! {
             "honest_pair",
             "initiator and acceptor against each other, 1-5 slots per direction, event channels drained (cap 0-2) or large, \
              generated relay/run schedule followed by relay-until-quiescent; every case is non-trivial (full handshake)",
-            8_000,
-            150_000,
+            60_000,
+            1_000_000,
         )
         .min_nontrivial(0.9),
         pair_strategy,
